@@ -2,7 +2,10 @@ module svh
 
 go 1.20
 
-require github.com/multiversx/mx-chain-storage-go v0.0.0
+require (
+	github.com/anishathalye/porcupine v1.3.0
+	github.com/multiversx/mx-chain-storage-go v0.0.0
+)
 
 require (
 	github.com/golang/snappy v0.0.4 // indirect
